@@ -326,6 +326,9 @@ def _check_unlock_preconditions(run, F, L, hb, init, gb, gi, ucall, ucn, hb_call
             if okd and ok and isinstance(k, int):
                 b = k if f.op == "<=" else k + 1
                 lb = b if lb is None else max(lb, b)
+    # ... and by no more than that: with exactly two retries left the device is unlocked (the property says `at least two`)
+    run.check("R2", lb is None or lb <= 2, f"the retries bound is exactly 2 (found: {lb})", key=f"{site}|retries-exact", where=where,
+              message=f"the unlock() site requires `retries >= {lb}`: a device with exactly two retries left - which the property says is unlocked and served - is refused")
     run.check("R2", lb is not None and lb >= 2,
               f"unlock dominated by retries >= 2 (lower bound found: {lb})",
               key=f"{site}|retries", where=where,
@@ -469,6 +472,8 @@ def _device_reports(run):
         "is_onboarded": {"self._send_command(self.CMD.IS_ONBOARD)[1] == 1"},
         # the retries byte is the third byte of the answer on both platforms (ui_comm.c: APDU_DATA_PTR[0] after CLA, CMD; system.c SGX_RETRIES alike)
         "get_retries": {"self._send_command(self.CMD.RETRIES)[2]", "self._send_command(SgxCommand.SGX_RETRIES)[2]"},
+        # major, minor, patch are bytes 2, 3, 4 of the IS_ONBOARD answer, in this order (ui_comm.c / hsm.c: VERSION_MAJOR, VERSION_MINOR, VERSION_PATCH)
+        "get_version": {"HSM2FirmwareVersion(self._send_command(self.CMD.IS_ONBOARD)[2], self._send_command(self.CMD.IS_ONBOARD)[3], self._send_command(self.CMD.IS_ONBOARD)[4])"},
     }
     for dc in dongle_classes(run):
         for mname, wv in want.items():
